@@ -495,7 +495,7 @@ class ExprMixin:
                 for s2, r in self.equals(st, it, x, node):
                     parts.append(asB(r))
             return [(st, fin(Or(*parts)))]
-        if isinstance(container, PyC) and isinstance(container.obj, (tuple, list, set, frozenset)) \
+        if isinstance(container, PyC) and isinstance(container.obj, (tuple, list, set, frozenset, dict)) \
                 and isinstance(x, PyC):
             return [(st, fin(TRUE if x.obj in container.obj else FALSE))]
         if isinstance(container, PyC) and isinstance(container.obj, (set, frozenset, tuple, list)) and \
